@@ -155,6 +155,11 @@ func c10Hostile(target string) []c10Doc {
 			d("key-control", "<ListBucketResult><Contents><Key>a\x01b\x7f&#x0;&#10;\xff://x</Key><Size>1</Size></Contents><CommonPrefixes><Prefix>&#xD;&#xA;</Prefix></CommonPrefixes></ListBucketResult>"),
 			d("ns-prefix", `<s3:ListBucketResult xmlns:s3="http://s3.amazonaws.com/doc/2006-03-01/"><s3:Contents><s3:Key>k</s3:Key><s3:Size>1</s3:Size></s3:Contents></s3:ListBucketResult>`),
 			d("truncated-token", "<ListBucketResult><Contents><Key>k</Key><Size>1</Size></Contents><NextContinuationTok"),
+			// the numeric fields of a listing are whatever the server says: negative, zero, absurdly large, not a number
+			d("keycount-neg", "<ListBucketResult><Name>b</Name><KeyCount>-2</KeyCount><MaxKeys>-5</MaxKeys><IsTruncated>false</IsTruncated><Contents><Key>a.txt</Key><Size>3</Size></Contents></ListBucketResult>"),
+			d("keycount-min", "<ListBucketResult><KeyCount>-9223372036854775808</KeyCount><MaxKeys>0</MaxKeys><Contents><Key>a.txt</Key><Size>-1</Size></Contents></ListBucketResult>"),
+			d("keycount-huge", "<ListBucketResult><KeyCount>9223372036854775807</KeyCount><MaxKeys>99999999999999999999</MaxKeys><Contents><Key>a.txt</Key><Size>9223372036854775807</Size></Contents><IsTruncated>true</IsTruncated><NextContinuationToken>t</NextContinuationToken></ListBucketResult>"),
+			d("keycount-nan", "<ListBucketResult><KeyCount>many</KeyCount><MaxKeys>1e3</MaxKeys><Contents><Key>a.txt</Key><Size>0x10</Size></Contents></ListBucketResult>"),
 		}
 	case "m3u8":
 		return []c10Doc{
